@@ -555,20 +555,25 @@ CHECKS["C11"] = {
              "TestQueryModelCoarseIntervals: the same on a month-type (5m/10m/30m: segment = month, family = day) or year-type (1h/4h: segment = year, family = month) database "
              "with 2-4 families around day/month/year boundaries (Dec 31->Jan 1, Jan 31->Feb 1, Feb 28/29->Mar 1), ranges < 1h, 1h..1d, > 2d; "
              "case non-trivial = a statement whose truncated range spans >= 2 segments returned >= 2 slots from >= 2 families; "
+             "Every history test: with probability 2/5 a metric carries a series id plan (strictly increasing ids at roaring container edges 0/1/2, 65534..65538, 131071..131073, 196607..196609, 199999, neighbours, arbitrary <= 199999); the k-th created series gets the k-th id. Classes series-ids:* count statements that read beyond the first container / the first series of a later container of a memdb, a file block, or a compacted block. TestQueryModelSparseSeries: plan on every metric, mostly >= 2 fields, half the cases end with flush-all + compaction of every family + statements. TestQueryModelManySeries: one 2-3 field metric with 65536*k + 2..300 really created series, statements on single series at the boundaries (=, in), ten series across a boundary (like, optional group by host), a hundred series or all series in one group; before/after flush, compaction, reopen. "
              "distinct = hash of schema + history"),
     "level_text": ("Exploration: thousands of generated histories per run, every statement compared with an independent model (exact because all values are dyadic); "
                    "flush interleavings are owned at seam granularity (deterministic, shrinkable), plus an unsystematic real-goroutine run whose oracle cannot raise false alarms "
                    "(writes completed before the query <= answer <= writes started before it returned; == when no write overlapped)."),
     "level_note": ("One shard, one leaf, one storage interval per database (sharding/placement is C12, rollup C04). last/first with several candidates from different flushes/series: membership only "
                    "(merge order is fixed by no document); rate/stddev/quantile are not generated; the +Inf bucket cannot be named in SQL. Known findings: function aggregate between parts of one slot "
-                   "(oracle accepts the placement-reachable values while listed), memdb reads overlapping a write (answers of such queries are not checked while listed)."),
+                   "(oracle accepts the placement-reachable values while listed), memdb reads overlapping a write (answers of such queries are not checked while listed). Series ids <= 199999 (default MaxSeriesPerMetric 200000); a planned series is created by its own production write call (a batch is cut in front of it)."),
     "assumptions": ["TZ=UTC", "a write and a Flush call of its own family never overlap in the stress test (the property quantifies over queries concurrent with flush)",
-                    "one engine per process at a time; every engine uses its own database name (lindb's pool gauges are process-wide by name)"],
+                    "one engine per process at a time; every engine uses its own database name (lindb's pool gauges are process-wide by name)",
+                    "ids skipped by a series id plan stand for series of the metric created earlier in the shard's index that have no point in the generated families (seam index.VerifSetNextSeriesID moves only the per-metric sequence; the id is read back after the write; the dense test uses no seam)",
+                    "a statement without LIMIT returns at most 20 series (sql parser default): grouped statements of the dense test match <= 10 series"],
     "tests": [
         {"name": "TestQueryModel", "quick": 1200, "thorough": {"checks": 6000, "shards": 12}},
         {"name": "TestQueryModelHistogram", "quick": 500, "thorough": {"checks": 3000, "shards": 4}},
         {"name": "TestQueryModelCoarseIntervals", "quick": 600, "thorough": {"checks": 4000, "shards": 6}},
         {"name": "TestQueryDuringFlush", "quick": 600, "thorough": {"checks": 4000, "shards": 6}},
+        {"name": "TestQueryModelSparseSeries", "quick": 400, "thorough": {"checks": 3000, "shards": 4}},
+        {"name": "TestQueryModelManySeries", "quick": 4, "thorough": {"checks": 40, "shards": 4}},
         {"name": "TestConcurrentFlushQuery", "quick": 2, "thorough": {"checks": 1, "race": True, "timeout": 3000}},
         {"name": "TestRegression.*|TestModelSelfTest", "quick": {}, "thorough": {}},
     ],
